@@ -5,7 +5,8 @@ import SuxModel.RankSel.Spec
 # Model of `sux::dict::elias_fano` (src/dict/elias_fano.rs) and of the trait defaults
 `IndexedSeq::get`, `IndexedDict::contains`, `Succ::succ/succ_strict`, `Pred::pred/pred_strict`
 (src/traits/indexed_dict.rs) — tree after the `fix:` commits dcd2313 (integer `l`), 015b891
-(`pred` guard for values above `u`), a6714c5 (`iter_from(len)`), 1ab2845 (`build` with too few values).
+(`pred` guard for values above `u`), a6714c5 (`iter_from(len)`), 1ab2845 (`build` with too few values),
+76fce19 (`l` of an empty sequence).
 
 `usize` = 64 bits.  The lower bits live in a `BFV.St` (`W = 64`, `bw = l`), the upper bits in a
 `BV.St`; both are the existing executable models, used unchanged.
@@ -56,8 +57,9 @@ deriving Repr, Inhabited, DecidableEq
 
 /-! ## builders -/
 
-/-- `let l = if n > 0 && u >= n { (u / n).ilog2() } else { 0 }` -/
-def lowWidth (n u : Nat) : Nat := if n > 0 ∧ u ≥ n then Nat.log2 (u / n) else 0
+/-- `let l = if u >= n.max(1) { (u / n.max(1)).ilog2() } else { 0 }` (an empty sequence is treated
+like a one-element one, so that its upper bits do not depend on `u`) -/
+def lowWidth (n u : Nat) : Nat := if u ≥ max n 1 then Nat.log2 (u / max n 1) else 0
 
 /-- `n + (u >> l) + 1` -/
 def highLen (n u l : Nat) : Out Nat := do
